@@ -11,6 +11,7 @@ class C06(SCheck):
     N = {"quick": 60, "thorough": 1500}
     K = {"quick": 8, "thorough": 32}
     compare_runs = True
+    ustep_rate = 0.35
     technique = "deterministic simulation: seeded random / PCT / run-to-block schedules at system-call granularity, cross-run comparison"
     rule = ("case = small tree (files at block boundaries, multi-block files, nested dirs, links) x options; each case runs under K schedules "
             "spread over both drivers, workers in {1,2,4,16,64} and scheduler kinds; distinct = distinct (thread, call) sequence signature; "
@@ -56,7 +57,7 @@ class C06(SCheck):
         for j in range(k):
             drv = "parfile" if j % 2 == 0 else "parblock"
             w = r.choice([1, 2, 4, 16, 64]) if j >= 2 else r.choice([2, 4])
-            plans.append({"seed": r.randrange(1 << 48), "sched": gen.sched_plan(r), "inv_override": {"driver": drv, "workers": w}})
+            plans.append({"seed": r.randrange(1 << 48), "sched": gen.sched_plan(r, ustep=self.ustep_rate), "inv_override": {"driver": drv, "workers": w}})
         return plans
 
     def evaluate(self, res, verdict, case, step_i, t0, plan):
